@@ -34,6 +34,9 @@ def runs_for(pid, tier, seed):
             R('hr2', fm.hr2(CritLists=none, ReportCap=64, CheckIP=True, Stabs={False} if q else {False, True})),
             R('wide3x3x2', fm.wide(ReportCap=4, **fm.build(0, 4)), simulate=3000 if q else 40000),
             R('wide-hr3x3', fm.wide(na=2, CritLists=some, ReportCap=4), simulate=1500 if q else 20000),
+            R('11 projects, ties', fm.twodigit_projects(TieMode='all', CritLists=none + [(fm.C('maxsize'),)], ReportCap=2, PCs={False, True}),
+              simulate=1000 if q else 12000, invariants=fm.BIG_INVARIANTS),
+            R('lists of four', fm.four_long(CritLists=some, ReportCap=4), simulate=1500 if q else 20000),
         ]
         if not q:
             runs += [R('shared3', fm.shared3(CritLists=none, ReportCap=64, CheckIP=True)),
@@ -72,6 +75,7 @@ def runs_for(pid, tier, seed):
                                           LecMapMode='all', Sided={'one'}, PCs={False}, Stabs={False})),
             R('wide x singles', fm.wide(CritLists=sg), simulate=4000 if q else 60000),
             R('wide-hr x singles', fm.wide(na=2, CritLists=sg), simulate=1500 if q else 20000),
+            R('lists of four x singles', fm.four_long(CritLists=sg), simulate=2500 if q else 30000),
         ]
         if not q:
             runs += [R('shared3 x singles', fm.shared3(CritLists=sg), simulate=40000),
@@ -81,8 +85,9 @@ def runs_for(pid, tier, seed):
         pr = fm.pairs(0) + rng.sample(fm.pairs(1), 30) + rng.sample(fm.pairs(2), 30)
         tr = rng.sample(fm.triples(), 120 if q else 504)
         runs = [
-            R('s2core x 2-3 criteria (id/rev/gap)', fm.s2core(Press={'id', 'rev', 'gap'}, MaxLen=2, **fm.build(2, 3)), simulate=5000 if q else 80000),
-            R('wide x 2-4 criteria', fm.wide(Press={'id', 'rev', 'gap'}, **fm.build(2, 4)), simulate=4000 if q else 60000),
+            R('s2core x 2-3 criteria (id/rev/gap/hi)', fm.s2core(Press={'id', 'rev', 'gap', 'hi'}, MaxLen=2, **fm.build(2, 3)), simulate=5000 if q else 80000),
+            R('wide x 2-4 criteria', fm.wide(Press={'id', 'rev', 'gap', 'hi'}, **fm.build(2, 4)), simulate=4000 if q else 60000),
+            R('lists of four x 2-3 criteria', fm.four_long(Press={'id', 'hi'}, **fm.build(2, 3)), simulate=1500 if q else 20000),
             R('wide x 5-9 criteria', fm.wide(Press={'id', 'rev'}, **fm.build(5, 9)), simulate=500 if q else 8000),
             R('wide-hr x 2-3 criteria', fm.wide(na=2, Press={'id', 'rev'}, **fm.build(2, 3)), simulate=1500 if q else 20000),
             R('shared3 x 3 criteria', fm.shared3(Press={'id', 'gap'}, **fm.build(3, 3)), simulate=2000 if q else 30000),
@@ -99,6 +104,9 @@ def runs_for(pid, tier, seed):
             R('shared3', fm.shared3(CritLists=crit, OrderMode='all', CheckIP=q is False, **two), simulate=3000 if q else None),
             R('wide', fm.wide(CritLists=crit, **two), simulate=3000 if q else 40000),
             R('wide-hr', fm.wide(na=2, CritLists=crit, Sided={'two'}, Stabs={True}), simulate=1500 if q else 20000),
+            R('four students, short lists', fm.four_short(CritLists=crit), simulate=3000 if q else 40000),
+            R('four hospitals/residents', fm.four_short(NA=2, NP=2, CritLists=crit), simulate=1500 if q else 20000),
+            R('lists of four', fm.four_long(CritLists=crit, Sided={'two'}, Stabs={True}, OrderMode='all'), simulate=1500 if q else 20000),
         ]
         return runs
     if pid == 'C11':
@@ -108,6 +116,8 @@ def runs_for(pid, tier, seed):
             R('wide', fm.wide(CritLists=none + [(fm.C('maxsize'),)], ReportCap=12, PCs={True}), simulate=2000 if q else 30000),
             R('shared3', fm.shared3(CritLists=none, ReportCap=64, Stabs={False}, PCs={True}), simulate=2000 if q else None),
             R('11 projects (two-digit ids)', fm.twodigit_projects(CritLists=none + [(fm.C('maxsize'),)], ReportCap=6), simulate=1200 if q else 15000),
+            R('lists of four, every tie structure', fm.four_long(CritLists=none + [(fm.C('maxsize'),)], ReportCap=8, PCs={True}, Stabs={False}),
+              simulate=1500 if q else 20000),
             R('10 students (two-digit ids)', fm.twodigit_students(CritLists=[(fm.C('maxsize'),), (fm.C('maxsize'), fm.C('mincost'))], ReportCap=3),
               simulate=400 if q else 5000, invariants=['FamilyWellFormed', 'ReportedValid', 'StatusIffFeasible', 'Export']),
         ]
@@ -145,6 +155,32 @@ NONTRIVIAL = {
 }
 
 
+def probe_variable_names(rep):
+    """C02 (the MPS/LP path needs unique column names): the naming of the pair
+    variables - and of their alpha/beta companions - is probed directly on Pair
+    objects for ids far beyond the instance families (NamesUnique of MPIP.tla
+    covers the objective variables)."""
+    from . import impl
+    impl.ensure_repo()
+    import pulp
+    from matchingproblems.solver.model import Pair
+    names = {}
+    bad = None
+    N = 40
+    for s_ in range(1, N + 1):
+        for p_ in range(1, N + 1):
+            pr = Pair(s_, p_, 1)
+            pr.pulp_setup(pulp.LpProblem('probe', pulp.LpMaximize), True)
+            for v in (pr.lp_var, pr.alpha_var, pr.beta_var):
+                if v.name in names and bad is None:
+                    bad = (v.name, names[v.name], (s_, p_))
+                names[v.name] = (s_, p_)
+    rep.clause('pair_variable_names_unique', bad is None, key='naming probe',
+               what='variable name %r is given to pairs %s and %s' % bad if bad else '',
+               case={'collision': bad})
+    rep.notes.append('variable naming probe: %d names of pair/alpha/beta variables for ids 1..%d x 1..%d, all distinct: %s' % (len(names), N, N, bad is None))
+
+
 def main(pid, tier, seed):
     post = None
     if pid in ('C01', 'C02', 'C03', 'C04', 'C05'):
@@ -152,4 +188,6 @@ def main(pid, tier, seed):
 
         def post(rep, pool):
             m3real.run(rep, pool, pid, m3real.jobs_for(pid, tier, seed), 'real CBC on Evaluations/ and generator instances')
+            if pid == 'C02':
+                probe_variable_names(rep)
     return lpcheck.run_lp_check(pid, tier, seed, runs_for(pid, tier, seed), rule=RULES[pid], nontrivial=NONTRIVIAL.get(pid), post=post)
